@@ -13,7 +13,7 @@ from ..flow import Enumerator, RETURN, count, fmt
 from ..symx import Expander
 from ..anf import R, Unsupported
 from .. import anf, trip, zerotrip
-from .common import struct_ob, formula_ob, guard, last_return
+from .common import struct_ob, formula_ob, guard, last_return, U
 from . import mcmc
 from ..report import AnalysisError
 
@@ -29,27 +29,27 @@ def run(prog, tier):
 
     # ---------------------------------------------------------------- trip-count: MarkovChain.advance
     c, adv = prog.method("MarkovChain", "advance")
-    obs.append(_trip(prog, c, adv, lambda n, ex, env: R.const(1) if ast.unparse(n.func) == "self.take_step" else None,
+    obs.append(_trip(prog, c, adv, lambda n, ex, env: R.const(1) if U(n.func) == "self.take_step" else None,
                      adv.args.args[1].arg, "take_step calls"))
     # ParallelTempering.advance: steps per chain = sum of take_steps arguments
     c, padv = prog.method("ParallelTempering", "advance")
 
     def w_ts(n, ex, env):
-        if ast.unparse(n.func) == "self.take_steps" and len(n.args) == 1:
+        if U(n.func) == "self.take_steps" and len(n.args) == 1:
             return ex.need_r(ex.eval(n.args[0], env))
         return None
     obs.append(_trip(prog, c, padv, w_ts, padv.args.args[1].arg, "steps per chain (sum of take_steps arguments)"))
     # EnsembleSampler.advance: iterations x one __advance_all
     c, eadv = prog.method("EnsembleSampler", "advance")
     obs.append(_trip(prog, c, eadv,
-                     lambda n, ex, env: R.const(1) if ast.unparse(n.func).endswith("__advance_all") else None,
+                     lambda n, ex, env: R.const(1) if U(n.func).endswith("__advance_all") else None,
                      eadv.args.args[1].arg, "__advance_all calls"))
     c, eall = prog.method("EnsembleSampler", "__advance_all")
     obs.append(_trip(prog, c, eall,
-                     lambda n, ex, env: R.const(1) if ast.unparse(n.func).endswith("__advance_walker") else None,
+                     lambda n, ex, env: R.const(1) if U(n.func).endswith("__advance_walker") else None,
                      None, "__advance_walker calls per iteration", want=R.sym("self.n_walkers")))
     # chain_length derived from the store
-    src = {ast.unparse(s.targets[0]): ast.unparse(s.value) for s in eadv.body if isinstance(s, ast.Assign)}
+    src = {U(s.targets[0]): U(s.value) for s in eadv.body if isinstance(s, ast.Assign)}
     obs.append(struct_ob("ensemble-length", qual(c, eadv), src.get("self.chain_length") == "self.sample_probs.size",
                          f"chain_length must be the size of the stored log-probabilities; is `{src.get('self.chain_length')}`",
                          c.module.relpath, eadv.lineno))
@@ -62,10 +62,10 @@ def run(prog, tier):
     ok = False
     why = "no message dictionary"
     if len(dicts) == 1:
-        d = {k.value: ast.unparse(v) for k, v in zip(dicts[0].keys, dicts[0].values)}
-        loops = [s for s in ts.body if isinstance(s, ast.For) and ast.unparse(s.iter) == "self.connections"]
+        d = {k.value: U(v) for k, v in zip(dicts[0].keys, dicts[0].values)}
+        loops = [s for s in ts.body if isinstance(s, ast.For) and U(s.iter) == "self.connections"]
         ok = (d.get("task") == "'advance'" and d.get("advance_count") == n_param and len(loops) == 1
-              and any(isinstance(x, ast.Call) and ast.unparse(x.func) == f"{ast.unparse(loops[0].target)}.send"
+              and any(isinstance(x, ast.Call) and U(x.func) == f"{U(loops[0].target)}.send"
                       for x in ast.walk(loops[0])))
         why = f"message {d}"
     obs.append(struct_ob("equal-steps", qual(c, ts), ok,
@@ -77,8 +77,8 @@ def run(prog, tier):
         if isinstance(n, ast.If) and isinstance(n.test, ast.Compare) and isinstance(n.test.comparators[0], ast.Constant) \
                 and n.test.comparators[0].value == "advance":
             loops = [s for s in n.body if isinstance(s, ast.For)]
-            ok = (len(loops) == 1 and ast.unparse(loops[0].iter) == "range(D['advance_count'])"
-                  and [ast.unparse(s) for s in loops[0].body] == [f"{chain}.take_step()"])
+            ok = (len(loops) == 1 and U(loops[0].iter) == "range(D['advance_count'])"
+                  and [U(s) for s in loops[0].body] == [f"{chain}.take_step()"])
     obs.append(struct_ob("equal-steps", f"{prog.module(rel).name}.tempering_process[advance]", ok,
                          "the worker must take exactly D['advance_count'] steps", rel, tp.lineno))
 
@@ -124,13 +124,13 @@ def run(prog, tier):
     a = [s for s in padv.body if isinstance(s, ast.Assign)]
     ok = False
     why = ""
-    if len(a) == 1 and ast.unparse(a[0].targets[0]) == "self.chains" and isinstance(a[0].value, ast.Call):
+    if len(a) == 1 and U(a[0].targets[0]) == "self.chains" and isinstance(a[0].value, ast.Call):
         call = a[0].value
         n_param = padv.args.args[1].arg
-        ok = (ast.unparse(call.func) == "self.pool.map" and ast.unparse(call.args[0]) == "self.adv_func"
-              and ast.unparse(call.args[1]) == f"[({n_param}, chain) for chain in self.chains]")
-        why = ast.unparse(a[0])
-    body = [ast.unparse(s) for s in af.body]
+        ok = (U(call.func) == "self.pool.map" and U(call.args[0]) == "self.adv_func"
+              and U(call.args[1]) == f"[({n_param}, chain) for chain in self.chains]")
+        why = U(a[0])
+    body = [U(s) for s in af.body]
     arg = af.args.args[0].arg
     ok2 = body == [f"n, chain = {arg}", "chain.advance(n)", "return chain"]
     obs.append(struct_ob("pool-order", qual(c, padv), ok and ok2,
@@ -191,7 +191,7 @@ def _trip(prog, c, fn, weight, param, what, want=None):
     msg = ""
     if bad:
         a, tot = bad[0]
-        g = [("" if pol == "true" else "not ") + ast.unparse(t) for pol, t in a.guards]
+        g = [("" if pol == "true" else "not ") + U(t) for pol, t in a.guards]
         msg = f"{what} on the path {g or '[straight]'} is  {tot}  but must be  {want}"
     return Ob_trip(c, fn, not bad, msg, forms, what)
 
@@ -205,7 +205,7 @@ def _lower_bound_ge1(expr):
     """Interval domain: literal >= 1; max(.., c>=1, ..); otherwise unknown (int(x) is only >= 0... or less)."""
     if isinstance(expr, ast.Constant) and isinstance(expr.value, (int, float)):
         return expr.value >= 1
-    if isinstance(expr, ast.Call) and ast.unparse(expr.func) == "max":
+    if isinstance(expr, ast.Call) and U(expr.func) == "max":
         return any(_lower_bound_ge1(a) for a in expr.args)
     return False
 
@@ -219,9 +219,9 @@ def _progress(c, fn, step_callee):
     w = whiles[0]
     # the counted loop
     loops = [n for n in w.body if isinstance(n, ast.For) and any(
-        isinstance(x, ast.Call) and ast.unparse(x.func) == step_callee for x in ast.walk(n))]
+        isinstance(x, ast.Call) and U(x.func) == step_callee for x in ast.walk(n))]
     problems = []
-    if len(loops) != 1 or not (isinstance(loops[0].iter, ast.Call) and ast.unparse(loops[0].iter.func) == "range"
+    if len(loops) != 1 or not (isinstance(loops[0].iter, ast.Call) and U(loops[0].iter.func) == "range"
                                and len(loops[0].iter.args) == 1):
         problems.append("no single `for _ in range(N)` stepping loop inside the timed loop")
     else:
@@ -233,17 +233,17 @@ def _progress(c, fn, step_callee):
                 problems.append(f"step count `{cnt.id}` is never assigned")
             for d in defs:
                 if not _lower_bound_ge1(d.value):
-                    problems.append(f"`{ast.unparse(d)}` (line {d.lineno}) has no lower bound >= 1: the timed loop can spin "
+                    problems.append(f"`{U(d)}` (line {d.lineno}) has no lower bound >= 1: the timed loop can spin "
                                     f"without taking a step")
         elif not _lower_bound_ge1(cnt):
-            problems.append(f"step count `{ast.unparse(cnt)}` has no lower bound >= 1")
+            problems.append(f"step count `{U(cnt)}` has no lower bound >= 1")
     # clock refresh: the while test reads time() directly, or a variable assigned from time() inside the loop
     test_names = {n.id for n in ast.walk(w.test) if isinstance(n, ast.Name)}
-    direct = any(isinstance(n, ast.Call) and ast.unparse(n.func) == "time" for n in ast.walk(w.test))
-    refreshed = any(isinstance(s, ast.Assign) and isinstance(s.value, ast.Call) and ast.unparse(s.value.func) == "time"
+    direct = any(isinstance(n, ast.Call) and U(n.func) == "time" for n in ast.walk(w.test))
+    refreshed = any(isinstance(s, ast.Assign) and isinstance(s.value, ast.Call) and U(s.value.func) == "time"
                     and any(isinstance(t, ast.Name) and t.id in test_names for t in s.targets) for s in w.body)
     if not (direct or refreshed):
         problems.append("the loop condition's clock variable is not refreshed from time() inside the loop")
     return struct_ob("run_for.progress", qual(c, fn), not problems, "; ".join(problems), rel, w.lineno,
                      detail="lower-bound" if any("lower bound" in p for p in problems) else "",
-                     slots={"loop_test": ast.unparse(w.test)})
+                     slots={"loop_test": U(w.test)})
